@@ -277,7 +277,7 @@ class Ctx:
 
   # ---- code -> spec ---------------------------------------------------------------------------
   def validate(self, trace_module, events, cfg=None, shards=None, per_trace=None, env=None,
-               timeout=3600, stateful=False):
+               timeout=1800, stateful=False):
     """Validates events recorded from the real code with TLC on spec/<trace_module>.tla.
 
     Events are dicts; "i" (global index) is added here. For stateless contracts the events are
@@ -318,8 +318,17 @@ class Ctx:
           f.write(json.dumps(ev, separators=(",", ":")) + "\n")
       e = {"TRACE_FILE": tf_, "BAD_FILE": bf}
       e.update(env or {})
-      r = run_tlc(trace_module, cfg, env=e, workers=1, tag="%s_%d" % (stamp, j), timeout=timeout,
-                  heap="3g")
+      # a shard normally takes seconds; TLC was once seen spinning forever on a shard that passes in
+      # 5 s when re-run, so every shard gets a bounded time and is retried before giving up
+      per_try = min(timeout, max(240, len(buckets[j]) // 5))
+      for attempt in range(3):
+        if os.path.exists(bf):
+          os.remove(bf)
+        r = run_tlc(trace_module, cfg, env=e, workers=1, tag="%s_%d_%d" % (stamp, j, attempt),
+                    timeout=per_try, heap="3g")
+        if r.rc != 124:
+          break
+        log("  trace shard %d of %s timed out after %ds (attempt %d), retrying" % (j, trace_module, per_try, attempt + 1))
       if not os.path.exists(bf) or "TRACE-ACCEPTED" not in r.out:
         p = os.path.join(self.work, "tlc_trace_fail_%s_%d.out" % (trace_module, j))
         with open(p, "w") as f:
